@@ -125,17 +125,18 @@ def step : List String → String
             match nat? q with
             | some q =>
               match takeOps q rest3 with
-              | some (ins, [h2, _lock2, k, vref]) =>
+              | some (ins, [h2, _lock2, k, vref, mode]) =>
                 match hexBytes? h2, nat? k, ElaVerif.TxFilter.load typ w with
                 | some h2, some k, some (ft, f) =>
                   match addAll mm f adds with
                   | none => "panic"
                   | some g =>
                     let facts : ElaVerif.TxFilter.TxFacts := ⟨ty, 9, false, ptype, vref == "1" && !ins.isEmpty⟩
-                    match ElaVerif.TxFilter.matchConfirmed mm ft g ⟨h1, UInt8.ofNat ty, outs, ins⟩ facts with
+                    let mt (c : Bool) := if c then ElaVerif.TxFilter.matchConfirmed mm ft else ElaVerif.TxFilter.matchUnconfirmed mm ft
+                    match mt (mode.startsWith "c") g ⟨h1, UInt8.ofNat ty, outs, ins⟩ facts with
                     | none => "panic"
                     | some (b1, g1) =>
-                      match ElaVerif.TxFilter.matchConfirmed mm ft g1 ⟨h2, 2, [], [⟨h1, k⟩]⟩ ⟨2, 9, false, 0, false⟩ with
+                      match mt (mode.endsWith "c") g1 ⟨h2, 2, [], [⟨h1, k⟩]⟩ ⟨2, 9, false, 0, false⟩ with
                       | none => "panic"
                       | some (b2, _) => boolStr b1 ++ " " ++ boolStr b2
                 | some _, some _, none => "err"
